@@ -14,8 +14,10 @@ import (
 	"github.com/nspcc-dev/neo-go/pkg/neotest"
 	"github.com/nspcc-dev/neo-go/pkg/smartcontract"
 	"github.com/nspcc-dev/neo-go/pkg/smartcontract/scparser"
+	"github.com/nspcc-dev/neo-go/pkg/smartcontract/trigger"
 	"github.com/nspcc-dev/neo-go/pkg/util"
 	"github.com/nspcc-dev/neo-go/pkg/vm/opcode"
+	"github.com/nspcc-dev/neo-go/pkg/vm/vmstate"
 	"pgregory.net/rapid"
 
 	"verif/sim"
@@ -52,19 +54,20 @@ const (
 	cTruncated
 	cTrailing
 	cNonMinimalCount
-	cTxNamedOnChain // a transaction named by a traceable on-chain Conflicts attribute of one of its signers (prepared by conflictAttack)
+	cTxNamedOnChain  // a transaction named by a traceable on-chain Conflicts attribute of one of its signers (prepared by conflictAttack)
+	cTxBlockedSigner // a transaction one of whose signers is blocked by the Policy contract (prepared by blockedSignerAttack)
 	numCorruptions
 )
 
 var corruptionNames = [...]string{"version", "prevhash", "merkle", "timestamp", "index+1", "index-far", "index-1", "nonce", "primary",
 	"nextconsensus", "prevstateroot", "sig-flip", "sig-missing", "sig-reorder", "sig-otherkeys", "verifscript", "tx-dup", "tx-alter",
 	"tx-expired", "tx-onchain", "tx-underfunded", "tx-drop-keep-merkle", "tx-reorder-keep-merkle", "truncated", "trailing", "nonminimal-count",
-	"tx-named-by-onchain-conflicts"}
+	"tx-named-by-onchain-conflicts", "tx-signed-by-blocked-account"}
 
 // resignable: corruptions whose re-signed variant is still an invalid chain extension
 // (re-signing nonce/primary/nextconsensus/drop/reorder variants would produce a different VALID block).
 var resignable = map[int]bool{cPrevHash: true, cMerkle: true, cTimestamp: true, cIndexPlus: true, cIndexFar: true,
-	cIndexMinus: true, cPrevStateRoot: true, cTxDup: true, cTxAlter: true, cTxExpired: true, cTxOnChain: true, cTxUnderfunded: true, cTxNamedOnChain: true}
+	cIndexMinus: true, cPrevStateRoot: true, cTxDup: true, cTxAlter: true, cTxExpired: true, cTxOnChain: true, cTxUnderfunded: true, cTxNamedOnChain: true, cTxBlockedSigner: true}
 
 // CorruptOp is one corrupted delivery before block At (index into the produced chain).
 type CorruptOp struct {
@@ -98,6 +101,7 @@ func drawC06(rt *rapid.T, p *Plan, tier string) *Plan {
 	p.KnownHeader = rapid.Bool().Draw(rt, "knownhdr")
 	p.ConflictAttack = rapid.IntRange(0, 2).Draw(rt, "conflictattack") == 0
 	p.ForgedHeaders = rapid.IntRange(0, 2).Draw(rt, "forgedheaders") == 0
+	p.BlockedAttack = rapid.IntRange(0, 3).Draw(rt, "blockedattack") == 0
 	p.Tape = drawTape(rt, 128)
 	return p
 }
@@ -254,7 +258,7 @@ func (r *run) corrupt(b *block.Block, prev *block.Block, op CorruptOp) (raw []by
 		}
 		c.Transactions = append(c.Transactions, tx)
 		rebuildMerkle = true
-	case cTxNamedOnChain:
+	case cTxNamedOnChain, cTxBlockedSigner:
 		if r.c06Victim == nil {
 			return nil, false, desc, false
 		}
@@ -312,7 +316,7 @@ func (r *run) corrupt(b *block.Block, prev *block.Block, op CorruptOp) (raw []by
 		// the genuine header with a body that does not match it
 		return encodeBlock(c), true, desc, true
 	}
-	validHeader = signed && (kind == cMerkle || kind == cTxDup || kind == cTxAlter || kind == cTxExpired || kind == cTxOnChain || kind == cTxUnderfunded || kind == cTxNamedOnChain)
+	validHeader = signed && (kind == cMerkle || kind == cTxDup || kind == cTxAlter || kind == cTxExpired || kind == cTxOnChain || kind == cTxUnderfunded || kind == cTxNamedOnChain || kind == cTxBlockedSigner)
 	return encodeBlock(c), validHeader, desc, true
 }
 
@@ -418,6 +422,10 @@ func (r *run) runC06() {
 		if r.fail != nil {
 			return
 		}
+	}
+	if r.plan.BlockedAttack && r.fail == nil {
+		r.blockedSignerAttack(V, prev)
+		return
 	}
 	if r.plan.ConflictAttack && r.fail == nil {
 		r.conflictAttack(V, prev)
@@ -630,6 +638,97 @@ func (r *run) headersFirstAttack(V *Node) {
 	}
 	if V.BC.BlockHeight() > bn.Index {
 		r.violate(sim.Violatef("rejected-block-changed-tip", "", "height moved to %d although block %d was rejected", V.BC.BlockHeight(), bn1.Index))
+	}
+}
+
+// blockedSignerAttack: "satisfies policy rules". The committee blocks an account; then a validly signed block arrives
+// that carries a transaction signed (as sender or as a co-signer at any position) by the blocked account, with all
+// witnesses valid. It must be refused and change nothing.
+func (r *run) blockedSignerAttack(V *Node, prev *block.Block) {
+	bc := r.P.BC
+	kr := r.prod.kr
+	if prev == nil {
+		return
+	}
+	xi := 4 + r.tape.Choose(2)
+	x := kr.acct(xi)
+	// the committee blocks account x (both nodes accept that block)
+	var btx *transaction.Transaction
+	if v := sim.Recover(func() { btx, _ = r.prod.buildTx(Op{Kind: OpPolicy, X: 3, B: xi, Y: 1}, nil) }); v != nil || btx == nil {
+		r.out.Probes["blocked_attack_not_applicable"]++
+		return
+	}
+	b, ok := r.produce(BlockPlan{}, []*transaction.Transaction{btx})
+	if !ok {
+		return
+	}
+	if err := V.AddBlockBytes(r.raw[b.Index]); err != nil {
+		r.violate(sim.Violatef("valid-block-rejected-after-attack", "", "V rejected the correct block %d: %v", b.Index, err))
+		return
+	}
+	sim.Wait()
+	r.compare(V, b.Index, "after-block")
+	if r.fail != nil {
+		return
+	}
+	prev = b
+	if aer, err := bc.GetAppExecResults(btx.Hash(), trigger.Application); err != nil || len(aer) != 1 || aer[0].VMState != vmstate.Halt {
+		r.out.Probes["blocked_attack_not_applicable"]++ // e.g. the committee is no longer the one the keyring can sign for
+		return
+	}
+	// the transaction: 1-3 signers, the blocked one at a tape-chosen position
+	var signers []neotest.SingleSigner
+	n := 1 + r.tape.Choose(3)
+	pos := r.tape.Choose(n)
+	for i := 0; i < n; i++ {
+		if i == pos {
+			signers = append(signers, x)
+		} else {
+			signers = append(signers, kr.acct(r.tape.Choose(4)))
+		}
+	}
+	seen := map[util.Uint160]bool{}
+	for _, sg := range signers {
+		if seen[sg.ScriptHash()] {
+			r.out.Probes["blocked_attack_not_applicable"]++
+			return
+		}
+		seen[sg.ScriptHash()] = true
+	}
+	if bc.GetUtilityTokenBalance(signers[0].ScriptHash(), util.Uint160{}).Sign() <= 0 {
+		r.out.Probes["blocked_attack_not_applicable"]++
+		return
+	}
+	tx := transaction.New(callScript(bc.UtilityTokenHash(), "transfer", signers[0].ScriptHash(), kr.acctHash(3), int64(5), nil), 20_000_000)
+	r.prod.nonce++
+	tx.Nonce = r.prod.nonce
+	tx.ValidUntilBlock = bc.BlockHeight() + 2
+	var sgs []neotest.Signer
+	for _, sg := range signers {
+		tx.Signers = append(tx.Signers, transaction.Signer{Account: sg.ScriptHash(), Scopes: transaction.CalledByEntry})
+		sgs = append(sgs, sg)
+	}
+	neotest.AddNetworkFee(r.P.tb, bc, tx, sgs...)
+	for _, sg := range signers {
+		if err := sg.SignTx(bc.GetConfig().Magic, tx); err != nil {
+			sim.Harnessf("sign: %v", err)
+		}
+	}
+	nb, ok := r.produce(BlockPlan{}, nil)
+	if !ok {
+		return
+	}
+	r.c06Victim = tx
+	poisoned := false
+	r.out.Probes["blocked_attack_delivered"]++
+	r.out.Probes[fmt.Sprintf("blocked_attack_signer_%d_of_%d", pos+1, n)]++
+	if r.attack(V, nb, prev, CorruptOp{Kind: cTxBlockedSigner, Resign: true}, &poisoned) {
+		return
+	}
+	if !poisoned {
+		if err := V.AddBlockBytes(r.raw[nb.Index]); err != nil {
+			r.violate(sim.Violatef("valid-block-rejected-after-attack", "", "V rejected the correct block %d after the block carrying a transaction of a blocked account: %v", nb.Index, err))
+		}
 	}
 }
 
